@@ -7,6 +7,7 @@
 // prefill and of the offsets, every new_*/delete_* pair releases what it allocated.
 #include "../harness/apitable.hpp"
 #include "../harness/kernels.hpp"
+#include "../harness/ctorops.hpp"
 extern "C" {
 #include "reim4/reim4_fftvec_public.h"
 }
@@ -156,13 +157,21 @@ int main(int argc, char** argv) {
   for (uint64_t m = 1; m <= 65536; m *= 2) ms.push_back(m);
   ctx.parallel(ms.size(), [&](uint64_t i) { run_balance(ctx, ms[ms.size() - 1 - i]); }, "constructor balance");
   ctx.parallel(ms.size(), [&](uint64_t i) { run_precomp_buffers(ctx, ms[ms.size() - 1 - i]); }, "buffers inside transform tables");
+  // no result depends on uninitialised memory: that includes the heap memory a constructor obtains - every constructor x size,
+  // with freshly allocated memory reading as 0x00, 0xFF and 0xA5 (each in its own process, under ASan as well)
+  std::vector<CtorOp> cops = ctor_ops(true);
+  ctx.parallel(cops.size(), [&](uint64_t k) {
+    run_ctor_env(cops, k, k + 1, [&](const std::string& id) { return ctx.want(id); },
+                 [&](const std::string& id, const std::string& msg) { ctx.violation(id, msg); },
+                 [&](const std::string& id, bool begin) { if (begin) ctx.begin_case(id); else ctx.end_case(true); });
+  }, "constructors x content of fresh heap memory");
   ctx.assumptions = {"library and harness built with -fsanitize=address; every buffer is a heap block of exactly the declared extent (right red zone at its end, poisoned slack on its left)",
                      "declared extents are those of DESIGN.md appendix A; NTT120 vectors are 32*N (DFT) / 16*N (big) bytes per limb as in the repository's tests",
                      "NOT_IMPLEMENTED() stubs (reim_from_znx32*, reim_from_tnx32*, reim_to_tnx32*) abort by design and are excluded",
                      "kernels are called only from their recorded minimum size upwards (unroll width / dispatch domain)"};
   return ctx.finish("fault_enumeration",
                     "entry-point table and exported-kernel table over their shape boxes, each case executed 4 (quick) / 8 (thorough) times with rotating per-buffer offsets "
-                    "(multiples of 8 bytes) and 3 prefill patterns; plus every constructor/destructor pair at every m = 1..65536; non-trivial when the case writes something "
+                    "(multiples of 8 bytes) and 3 prefill patterns; plus every constructor/destructor pair at every m = 1..65536 and every constructor x size x 3 contents of freshly allocated heap memory; non-trivial when the case writes something "
                     "(res_size>0 ...) or allocates; distinct = distinct case ids",
                     true);
 }
